@@ -48,6 +48,7 @@ def replay_indexed_commit(inputs, obl):
         [('ins', [2, 21]), ('read',), ('ins', [2, 22]), ('read',)],
         [('batch', [[5, 51], [5, 52], [1, 11], [5, 53]]), ('read',)],
         [('ins', [5, 50]), ('read',)], [('ins', [0, 1]), ('ins', [9, 90]), ('ins', [4, 40]), ('read',)],
+        [('ins', [2, 2.5]), ('read',)], [('ins', [2, 2.5]), ('ins', [9, 1.25]), ('read',), ('ins', [3, 7]), ('read',)],      # a real into an integer column
         [('ins', [7, 71]), ('ins', [1, 12]), ('ins', [7, 72]), ('ins', [3, 30]), ('read',), ('ins', [3, 31]), ('ins', [3, 32]), ('read',)],
     ]
     import random
@@ -72,10 +73,10 @@ def replay_indexed_commit(inputs, obl):
                         model[a] = b
                 else:
                     ks = [int(x) for x in k('T?"k"')]
-                    vs = [int(x) for x in k('T?"v"')]
+                    vs = [float(x) for x in k('T?"v"')]
                     n = int(k('#T'))
                     want_k = sorted(model)
-                    if ks != want_k or vs != [model[x] for x in want_k] or n != len(model):
+                    if ks != want_k or vs != [float(model[x]) for x in want_k] or n != len(model):
                         problems.append(f"after {str(h[:h.index(op) + 1])[:160]}: keys {ks} values {vs} count {n}; one row per key, last inserted, ordered by key gives "
                                         f"{want_k} {[model[x] for x in want_k]}")
                         break
